@@ -21,72 +21,87 @@ Proof.
   - inversion Hl; subst. constructor; [assumption|]. apply IH; assumption.
 Qed.
 
+Lemma existsb_eqb_in k l : existsb (Z.eqb k) l = true -> In k l.
+Proof.
+  intros H. apply existsb_exists in H. destruct H as (x & Hx & E). apply Z.eqb_eq in E. subst. exact Hx.
+Qed.
+
+Section SysProofs.
+Variable var : variant.
+Let c := v_cfg var.
+Let tagged := v_tagged var.
+
 (** ** privacy: a store by thread [t] changes nothing but [t]'s own tree *)
-Theorem set_private s t k v s' rc : sys_step s (TSet t k v) = Some (s', rc) ->
+Theorem set_private s t k v s' rc : sys_step var s (TSet t k v) = Some (s', rc) ->
   sk s' = sk s /\ sh s' = sh s /\ length (trees s') = length (trees s) /\
   forall t', t' <> t -> nth_error (trees s') t' = nth_error (trees s) t'.
 Proof.
   cbn [sys_step]. destruct (nth_error (trees s) t) as [tr|] eqn:Et; [|discriminate].
-  destruct (set tr k v) as [[tr' rc']|]; [|discriminate]. intros H; inversion H; subst; clear H.
+  destruct (set (v_cfg var) (kgen (sk s)) tr k v) as [[tr' rc']|]; [|discriminate].
+  intros H; inversion H; subst; clear H.
   cbn [sk sh trees]. split; [reflexivity|]. split; [reflexivity|]. split.
   - clear Et. revert t. induction (trees s) as [|z r IH]; intros [|t]; cbn [set_tree length]; try reflexivity.
     rewrite IH. reflexivity.
   - intros t' Hne. apply nth_set_tree_other. exact Hne.
 Qed.
 
-Theorem get_pure s t k s' v : sys_step s (TGet t k) = Some (s', v) -> s' = s.
+Theorem get_pure s t k s' v : sys_step var s (TGet t k) = Some (s', v) -> s' = s.
 Proof.
   cbn [sys_step]. destruct (nth_error (trees s) t) as [tr|]; [|discriminate].
-  destruct (get tr k); [|discriminate]. intros H; inversion H; reflexivity.
+  destruct (get (kgen (sk s)) tr k); [|discriminate]. intros H; inversion H; reflexivity.
 Qed.
 
-(** ** the invariant of guarded histories *)
+(** ** the invariant of guarded histories (either variant) *)
 Definition sinv (s : sys) : Prop :=
-  kinv (sk s) (sh s) /\ Forall reach (trees s) /\
-  (forall k, in_range k -> ~ In k (sh s) -> Forall (fun tr => get tr k = Some 0) (trees s)).
+  kinv (sk s) (sh s) /\ Forall (reach c) (trees s) /\
+  (forall k, in_range k -> ~ In k (sh s) -> Forall (fun tr => get (kgen (sk s)) tr k = Some 0) (trees s)).
 
 Lemma sinv_init n : sinv (sys_init n).
 Proof.
-  unfold sys_init. split; [exact kinv_init|]. cbn [trees sh]. split.
+  unfold sys_init. split; [exact kinv_init|]. cbn [trees sh sk]. split.
   - apply Forall_forall. intros tr H. apply repeat_spec in H. subst. apply reach_empty.
   - intros k _ _. apply Forall_forall. intros tr H. apply repeat_spec in H. subst. apply get_empty.
 Qed.
 
-Lemma existsb_eqb_in k l : existsb (Z.eqb k) l = true -> In k l.
-Proof.
-  intros H. apply existsb_exists in H. destruct H as (x & Hx & E). apply Z.eqb_eq in E. subst. exact Hx.
-Qed.
+Lemma bump_other s k k' : k' <> k -> bump tagged s k k' = kgen s k'.
+Proof. intros H. unfold bump. destruct tagged; [apply fupd_other; exact H|reflexivity]. Qed.
 
 Lemma sinv_step s o : sinv s -> guardb s o = true ->
-  (exists s' r, sys_step s o = Some (s', r) /\ sinv s') \/ sys_step s o = None.
+  (exists s' r, sys_step var s o = Some (s', r) /\ sinv s') \/ sys_step var s o = None.
 Proof.
   intros (Hk & Hr & Hclean) Hg. destruct o as [d|k|t k v|t k|t]; cbn [sys_step guardb] in *.
-  - left. destruct (seq_create_spec (sk s) (sh s) d Hk) as [[_ E]|[_ (k & s1 & E & _ & _ & _ & _ & Hk')]];
+  - left. fold tagged.
+    destruct (seq_create_spec tagged (sk s) (sh s) d Hk) as [[_ E]|[_ (k & s1 & E & Hkr & _ & _ & _ & Hk' & Eg)]];
       rewrite E; eexists _, _; (split; [reflexivity|]).
     + split; [exact Hk|]. split; [exact Hr|exact Hclean].
-    + split; [exact Hk'|]. cbn [sh trees]. split; [exact Hr|].
-      intros k' Hk'r Hn. apply Hclean; [exact Hk'r|]. intros H. apply Hn. right. exact H.
-  - left. destruct (seq_delete_spec (sk s) (sh s) k Hk) as [[Hin (s1 & E & Hk')]|[_ E]];
+    + split; [exact Hk'|]. cbn [sh trees sk]. split; [exact Hr|].
+      intros k' Hk'r Hn.
+      assert (Hne : k' <> k) by (intros ->; apply Hn; left; reflexivity).
+      assert (Hold : ~ In k' (sh s)) by (intros H; apply Hn; right; exact H).
+      specialize (Hclean k' Hk'r Hold). rewrite Forall_forall in Hclean |- *. intros tr Htr.
+      rewrite <- (Hclean tr Htr). apply get_kg_ext. rewrite Eg. apply bump_other. exact Hne.
+  - left. fold tagged.
+    destruct (seq_delete_spec tagged (sk s) (sh s) k Hk) as [[Hin (s1 & E & Hk' & Eg)]|[_ E]];
       rewrite E; eexists _, _; (split; [reflexivity|]).
-    + split; [exact Hk'|]. cbn [sh trees]. split; [exact Hr|].
+    + split; [exact Hk'|]. cbn [sh trees sk]. rewrite Eg. split; [exact Hr|].
       intros k' Hk'r Hn. destruct (Z.eq_dec k' k) as [->|Hne].
       * rewrite forallb_forall in Hg. apply Forall_forall. intros tr Htr. specialize (Hg tr Htr).
-        destruct (get tr k) as [[| |]|]; try discriminate. reflexivity.
+        destruct (get (kgen (sk s)) tr k) as [[| |]|]; try discriminate. reflexivity.
       * apply Hclean; [exact Hk'r|]. intros H. apply Hn. apply remove1_in_other; assumption.
     + split; [exact Hk|]. split; [exact Hr|exact Hclean].
   - destruct (nth_error (trees s) t) as [tr|] eqn:Et; [|right; reflexivity]. left.
-    assert (Htr : reach tr) by (rewrite Forall_forall in Hr; apply Hr; eapply nth_error_In; exact Et).
-    destruct (set_total tr k v Htr) as (tr' & rc & Es & _). rewrite Es.
+    assert (Htr : reach c tr) by (rewrite Forall_forall in Hr; apply Hr; eapply nth_error_In; exact Et).
+    destruct (set_total c (kgen (sk s)) tr k v Htr) as (tr' & rc & Es & _). fold c. rewrite Es.
     eexists _, _. split; [reflexivity|]. cbn [sk sh trees]. split; [exact Hk|]. split.
     + apply Forall_set_tree; [exact Hr|]. eapply reach_set; eassumption.
     + intros k' Hk'r Hn. apply Forall_set_tree; [apply Hclean; assumption|].
       assert (Hne : k' <> k) by (intros ->; apply Hn; apply existsb_eqb_in; exact Hg).
-      rewrite (set_frame tr k v tr' rc k' Htr Es Hne).
+      cbn [sk sh trees] in Hn |- *. rewrite (set_frame c (kgen (sk s)) tr k v tr' rc k' (kgen (sk s)) Htr Es Hne).
       specialize (Hclean k' Hk'r Hn). rewrite Forall_forall in Hclean. apply Hclean.
       eapply nth_error_In; exact Et.
   - destruct (nth_error (trees s) t) as [tr|] eqn:Et; [|right; reflexivity]. left.
-    assert (Htr : reach tr) by (rewrite Forall_forall in Hr; apply Hr; eapply nth_error_In; exact Et).
-    destruct (get_total tr k Htr) as (v & Ev). rewrite Ev. eexists _, _. split; [reflexivity|].
+    assert (Htr : reach c tr) by (rewrite Forall_forall in Hr; apply Hr; eapply nth_error_In; exact Et).
+    destruct (get_total c (kgen (sk s)) tr k Htr) as (v & Ev). rewrite Ev. eexists _, _. split; [reflexivity|].
     split; [exact Hk|]. split; [exact Hr|exact Hclean].
   - destruct (nth_error (trees s) t) as [tr|] eqn:Et; [|right; reflexivity]. left.
     eexists _, _. split; [reflexivity|]. cbn [sk sh trees]. split; [exact Hk|]. split.
@@ -94,8 +109,8 @@ Proof.
     + intros k' Hk'r Hn. apply Forall_set_tree; [apply Hclean; assumption|apply get_empty].
 Qed.
 
-Lemma sinv_run os : forall s, sinv s -> guarded_run s os = true ->
-  exists s' rs, sys_run s os = Some (s', rs) /\ sinv s'.
+Lemma sinv_run os : forall s, sinv s -> guarded_run var s os = true ->
+  exists s' rs, sys_run var s os = Some (s', rs) /\ sinv s'.
 Proof.
   induction os as [|o r IH]; intros s Hi Hg; cbn [sys_run guarded_run] in *; [eauto|].
   apply andb_true_iff in Hg. destruct Hg as [Hg1 Hg2].
@@ -103,28 +118,144 @@ Proof.
   destruct (IH s1 Hi1 Hg2) as (s2 & rs & E2 & Hi2). rewrite E2. eauto.
 Qed.
 
-(** a key handed out by a create reads NULL in every thread, provided the
-    history so far was guarded *)
-Theorem fresh_key_null n os s rs d s' k :
-  guarded_run (sys_init n) os = true ->
-  sys_run (sys_init n) os = Some (s, rs) ->
-  sys_step s (KCreate d) = Some (s', k) -> k <> -1 ->
-  forall t tr, nth_error (trees s') t = Some tr -> get tr k = Some 0.
+(** PARTIAL (the code without tags): a key handed out by a create reads NULL in
+    every thread, provided the history so far was guarded *)
+Theorem fresh_key_null_guarded n os s rs d s' k : v_tagged var = false ->
+  guarded_run var (sys_init n) os = true ->
+  sys_run var (sys_init n) os = Some (s, rs) ->
+  sys_step var s (KCreate d) = Some (s', k) -> k <> -1 ->
+  forall t tr, nth_error (trees s') t = Some tr -> get (kgen (sk s')) tr k = Some 0.
 Proof.
-  intros Hg Hrun Hc Hk t tr Ht.
-  destruct (sinv_run os (sys_init n) (sinv_init n) Hg) as (s0 & rs0 & E & (Hkinv & Hr & Hclean)).
+  intros Htag Hg Hrun Hc Hk t tr Ht.
+  destruct (sinv_run os (sys_init n) (sinv_init n) Hg) as (s0 & rs0 & E & (Hkinv & _ & Hclean)).
   rewrite E in Hrun. inversion Hrun; subst s0 rs0; clear Hrun.
-  cbn [sys_step] in Hc.
-  destruct (seq_create_spec (sk s) (sh s) d Hkinv) as [[_ E1]|[_ (k1 & s1 & E1 & Hkr & Hkn & _)]];
-    rewrite E1 in Hc; inversion Hc; subst; clear Hc; [contradiction Hk; reflexivity|].
-  cbn [trees] in Ht. specialize (Hclean k Hkr Hkn). rewrite Forall_forall in Hclean.
-  apply Hclean. eapply nth_error_In; exact Ht.
+  cbn [sys_step] in Hc. fold tagged in Hc.
+  destruct (seq_create_spec tagged (sk s) (sh s) d Hkinv) as [[_ E2]|[_ (k1 & s1 & E2 & Hkr & Hkn & _ & _ & _ & Eg)]];
+    rewrite E2 in Hc; inversion Hc; subst; clear Hc; [contradiction Hk; reflexivity|].
+  cbn [trees sk] in *.
+  specialize (Hclean k Hkr Hkn). rewrite Forall_forall in Hclean.
+  rewrite <- (Hclean tr (nth_error_In _ _ Ht)). apply get_kg_ext.
+  rewrite Eg. unfold bump. unfold tagged. rewrite Htag. reflexivity.
 Qed.
 
-(** the unguarded statement is false: the slot written under the old
-    incarnation of the index is still there *)
+(** ** generation tags: the FULL statement, no guard and no usage contract *)
+Hypothesis is_tagged : v_tagged var = true.
+
+(** after [n] operations no generation exceeds [n], and no slot carries a
+    generation above the current one of its index *)
+Definition ginv (n : Z) (s : sys) : Prop :=
+  kinv (sk s) (sh s) /\ Forall (reach c) (trees s) /\
+  (forall k, 0 <= kgen (sk s) k <= n) /\
+  (forall tr, In tr (trees s) -> forall k v g, look_tree tr k = Found v g -> 0 <= g <= kgen (sk s) k).
+
+Lemma ginv_init n : ginv 0 (sys_init n).
+Proof.
+  unfold sys_init. split; [exact kinv_init|]. cbn [trees sh sk]. split; [|split].
+  - apply Forall_forall. intros tr H. apply repeat_spec in H. subst. apply reach_empty.
+  - intros k. cbn. lia.
+  - intros tr H k v g Hl. apply repeat_spec in H. subst. unfold look_tree in Hl. cbn in Hl.
+    destruct (out_of_range k); discriminate.
+Qed.
+
+Lemma in_set_tree l : forall t x y, In y (set_tree l t x) -> y = x \/ In y l.
+Proof.
+  induction l as [|z r IH]; intros [|t] x y H; cbn [set_tree In] in *; try contradiction.
+  - destruct H as [H|H]; [left; symmetry; exact H|right; right; exact H].
+  - destruct H as [H|H]; [right; left; exact H|]. destruct (IH t x y H); tauto.
+Qed.
+
+Lemma ginv_step n s o s' r : ginv n s -> 0 <= n -> n + 1 < GEN_MOD ->
+  sys_step var s o = Some (s', r) -> ginv (n + 1) s'.
+Proof.
+  intros (Hk & Hr & Hgen & Hent) Hn0 Hn Hs. destruct o as [d|k|t k v|t k|t]; cbn [sys_step] in Hs.
+  - fold tagged in Hs.
+    destruct (seq_create_spec tagged (sk s) (sh s) d Hk) as [[_ E]|[_ (k & s1 & E & Hkr & _ & _ & _ & Hk' & Eg)]];
+      rewrite E in Hs; injection Hs as <- <-; unfold ginv; cbn [sk sh trees].
+    + cbn [sk sh trees]. split; [exact Hk|]. split; [exact Hr|]. split; [intros k; specialize (Hgen k); lia|exact Hent].
+    + cbn [sk sh trees]. split; [exact Hk'|]. split; [exact Hr|].
+      assert (Hb : forall x, kgen (sk s) x <= bump tagged (sk s) k x <= n + 1).
+      { intros x. unfold bump, tagged. rewrite is_tagged. unfold fupd.
+        destruct (x =? k) eqn:Ex; [|specialize (Hgen x); lia].
+        apply Z.eqb_eq in Ex. subst x. specialize (Hgen k).
+        rewrite Z.mod_small by (unfold GEN_MOD in *; lia). lia. }
+      rewrite Eg. split.
+      * intros x. specialize (Hb x). specialize (Hgen x). lia.
+      * intros tr Htr x v g Hl. specialize (Hent tr Htr x v g Hl). specialize (Hb x). lia.
+  - fold tagged in Hs.
+    destruct (seq_delete_spec tagged (sk s) (sh s) k Hk) as [[_ (s1 & E & Hk' & Eg)]|[_ E]];
+      rewrite E in Hs; injection Hs as <- <-; unfold ginv; cbn [sk sh trees].
+    + split; [exact Hk'|]. split; [exact Hr|]. rewrite Eg.
+      split; [intros x; specialize (Hgen x); lia|exact Hent].
+    + split; [exact Hk|]. split; [exact Hr|]. split; [intros x; specialize (Hgen x); lia|exact Hent].
+  - destruct (nth_error (trees s) t) as [tr|] eqn:Et; [|discriminate].
+    assert (Htr : reach c tr) by (rewrite Forall_forall in Hr; apply Hr; eapply nth_error_In; exact Et).
+    fold c in Hs. destruct (set c (kgen (sk s)) tr k v) as [[tr' rc]|] eqn:Es; [|discriminate].
+    injection Hs as <- <-; unfold ginv; cbn [sk sh trees]. cbn [sk sh trees]. split; [exact Hk|]. split.
+    + apply Forall_set_tree; [exact Hr|]. eapply reach_set; eassumption.
+    + split; [intros x; specialize (Hgen x); lia|].
+      intros y Hy x v' g' Hl. destruct (in_set_tree _ _ _ _ Hy) as [->|Hy']; [|apply (Hent y Hy' x v' g' Hl)].
+      destruct (set_slot c (kgen (sk s)) tr k v tr' rc x v' g' Htr Es Hl) as [(-> & _ & _ & ->)|[Hold|[_ ->]]].
+      * specialize (Hgen k). lia.
+      * apply (Hent tr (nth_error_In _ _ Et) x v' g' Hold).
+      * specialize (Hgen x). lia.
+  - destruct (nth_error (trees s) t) as [tr|]; [|discriminate].
+    destruct (get (kgen (sk s)) tr k); [|discriminate]. injection Hs as <- <-; unfold ginv; cbn [sk sh trees].
+    split; [exact Hk|]. split; [exact Hr|]. split; [intros x; specialize (Hgen x); lia|exact Hent].
+  - destruct (nth_error (trees s) t) as [tr|] eqn:Et; [|discriminate]. injection Hs as <- <-; unfold ginv; cbn [sk sh trees].
+    cbn [sk sh trees]. split; [exact Hk|]. split; [apply Forall_set_tree; [exact Hr|apply reach_empty]|].
+    split; [intros x; specialize (Hgen x); lia|].
+    intros y Hy x v g Hl. destruct (in_set_tree _ _ _ _ Hy) as [->|Hy']; [|apply (Hent y Hy' x v g Hl)].
+    unfold look_tree in Hl. cbn in Hl. destruct (out_of_range x); discriminate.
+Qed.
+
+Lemma ginv_run os : forall n s s' rs, ginv n s -> 0 <= n -> n + Z.of_nat (length os) < GEN_MOD ->
+  sys_run var s os = Some (s', rs) -> ginv (n + Z.of_nat (length os)) s'.
+Proof.
+  induction os as [|o r IH]; intros n s s' rs Hi Hn0 Hn Hrun; cbn [sys_run length] in *.
+  - inversion Hrun; subst. replace (n + Z.of_nat 0) with n by lia. exact Hi.
+  - destruct (sys_step var s o) as [[s1 x]|] eqn:E; [|discriminate].
+    destruct (sys_run var s1 r) as [[s2 xs]|] eqn:E2; [|discriminate]. inversion Hrun; subst; clear Hrun.
+    replace (n + Z.of_nat (S (length r))) with ((n + 1) + Z.of_nat (length r)) by lia.
+    apply (IH (n + 1) s1 s' xs); [|lia|lia|exact E2].
+    eapply ginv_step; [exact Hi|exact Hn0|lia|exact E].
+Qed.
+
+(** FULL: after ANY history (any number of threads; stores under dead keys,
+    deletes of keys that threads still hold values under - everything allowed)
+    of fewer than 2^32 - 1 operations, the key returned by a create reads NULL
+    in every thread *)
+Theorem fresh_key_null n os s rs d s' k :
+  Z.of_nat (length os) + 1 < GEN_MOD ->
+  sys_run var (sys_init n) os = Some (s, rs) ->
+  sys_step var s (KCreate d) = Some (s', k) -> k <> -1 ->
+  forall t tr, nth_error (trees s') t = Some tr -> get (kgen (sk s')) tr k = Some 0.
+Proof.
+  intros Hlen Hrun Hc Hk t tr Ht.
+  pose proof (ginv_run os 0 (sys_init n) s rs (ginv_init n) ltac:(lia) ltac:(lia) Hrun) as (Hkinv & Hr & Hgen & Hent).
+  cbn [Z.add] in Hgen, Hent.
+  cbn [sys_step] in Hc. fold tagged in Hc.
+  destruct (seq_create_spec tagged (sk s) (sh s) d Hkinv) as [[_ E2]|[_ (k1 & s1 & E2 & Hkr & Hkn & _ & _ & _ & Eg)]];
+    rewrite E2 in Hc; inversion Hc; subst; clear Hc; [contradiction Hk; reflexivity|].
+  cbn [trees sk] in *.
+  unfold get. destruct (look_tree tr k) as [|v g|] eqn:El; [reflexivity| |].
+  - specialize (Hent tr (nth_error_In _ _ Ht) k v g El). specialize (Hgen k).
+    rewrite Eg. unfold bump, tagged. rewrite is_tagged, fupd_same.
+    rewrite Z.mod_small by (unfold GEN_MOD in *; lia).
+    destruct (Z.eqb_spec g (kgen (sk s) k + 1)) as [E|E]; [lia|reflexivity].
+  - exfalso. assert (Htr : reach c tr) by (rewrite Forall_forall in Hr; apply Hr; eapply nth_error_In; exact Ht).
+    destruct (get_total c (fun _ => 0) tr k Htr) as (v & Hv). unfold get in Hv. rewrite El in Hv. discriminate.
+Qed.
+End SysProofs.
+
+(** the unguarded statement is false for the code without tags: the slot written
+    under the old incarnation of the index is still there ... *)
 Theorem stale_witness :
-  option_map snd (sys_run (sys_init 1) stale_history) = Some [0; 0; 0; 0; 777] /\
-  guarded_run (sys_init 1) stale_history = false /\
-  guarded_run (sys_init 1) [KCreate 0; TSet 0 0 777] = true.
+  option_map snd (sys_run variant_plain (sys_init 1) stale_history) = Some [0; 0; 0; 0; 777] /\
+  guarded_run variant_plain (sys_init 1) stale_history = false /\
+  guarded_run variant_plain (sys_init 1) [KCreate 0; TSet 0 0 777] = true.
 Proof. split; [vm_compute; reflexivity|split; vm_compute; reflexivity]. Qed.
+
+(** ... and with generation tags the same history reads NULL *)
+Theorem stale_witness_tagged :
+  option_map snd (sys_run variant_tagged (sys_init 1) stale_history) = Some [0; 0; 0; 0; 0].
+Proof. vm_compute. reflexivity. Qed.
